@@ -755,6 +755,16 @@ func mutation(seed int64, t *target, i int) []byte {
 	g := t.grammar
 	own := c.by[g]
 	toks := tokensFor(g)
+	if g == "keyed" {
+		if rng.Intn(20) != 0 {
+			return keyedRandom(rng, fmt.Sprintf("mut-%d-%d", seed, i), c.by["agefile"])
+		}
+		b := pickSeed(rng, c.by["keyed"])
+		if len(b) > 2 {
+			b = append([]byte{b[0], b[1]}, mutateAgeFile(rng, b[2:], c.by["agefile"], tokensFor("agefile"))...)
+		}
+		return b
+	}
 	var b []byte
 	if rng.Intn(25) == 0 {
 		b = pickSeed(rng, c.all) // a foreign seed now and then
